@@ -166,15 +166,15 @@ Qed.
     truncation without the extra (clipped) top wavenumber; T* grids are
     quadratically, TL* grids linearly de-aliased in longitude; the translated
     [_round_to_multiple] is the model's. *)
-Definition factory_ok (g : String.string * bool * nat * nat) : bool :=
-  let '(_, tl, mw, gn) := g in
+Definition factory_ok (g : bool * nat * nat) : bool :=
+  let '(tl, mw, gn) := g in
   let Mw := construct_M mw gn in let Lw := construct_L mw gn in
   let Iw := construct_I mw gn in let Jw := construct_J mw gn in
   if tl then resolves 0 Iw Jw Mw (Lw - 1) && negb (resolves 0 Iw Jw Mw Lw) && (2 * mw + 1 <=? Iw)
   else resolves 0 Iw Jw Mw Lw && (3 * mw + 1 <=? Iw).
 
 Theorem C01_grid_table_resolves :
-  gridtable_ok = true /\ forallb factory_ok grid_table = true /\ (20 <= length grid_table)%nat /\
+  gridtable_ok = true /\ forallb factory_ok grid_table = true /\ (20 <= length grid_table)%nat /\ length grid_names = length grid_table /\
   (forall x m, gt_round_to_multiple x m = round_to_multiple x m).
 Proof. repeat split; vm_compute; reflexivity. Qed.
 
